@@ -408,29 +408,73 @@ func checkC18(c *Ctx) {
 			}
 			for _, st := range stores {
 				src := stripConv(st.Val)
+				if ex, isEx := src.(*ssa.Extract); isEx && ex.Index == 0 {
+					src = ex.Tuple
+				}
 				call, ok := src.(*ssa.Call)
 				if !ok {
 					r.Unk("C18.3", "Init: "+field+" source", st.Pos(), fnName(f), "not a constructor call: "+pathOf(src))
 					continue
 				}
-				name := calleeShort(&call.Call)
-				durOK := strings.Contains(pathOf(call.Call.Args[0]), "time.ParseDuration(conf."+w[0]+")#0")
-				capAtom := "(" + orderEq("0", "conf."+w[1]) + ")"
-				switch name {
-				case "newLRUCache":
-					capOK := pathOf(call.Call.Args[1]) == "conf."+w[1]
-					g := guarded(f, st, Atom{capAtom, false})
-					r.Check(durOK && capOK && g, "C18.3", "Init: "+field+" LRU uses "+w[0]+"/"+w[1]+" and is chosen when "+w[1]+" != 0", st.Pos(), fnName(f), pathOf(call),
-						"the bounded cache for "+field+" is created from, or selected by, another cache's setting: with only "+w[1]+" configured the cache is unbounded (or sized by the wrong value)")
-				case "newMapCache":
-					g := guarded(f, st, Atom{capAtom, true})
-					r.Check(durOK && g, "C18.3", "Init: "+field+" unbounded map only when "+w[1]+" == 0", st.Pos(), fnName(f), pathOf(call),
-						"the unbounded map cache for "+field+" can be selected although "+w[1]+" is configured: the cache is not bounded by its capacity")
-				default:
-					r.Unk("C18.3", "Init: "+field+" constructor", st.Pos(), fnName(f), "unknown constructor "+name)
+				// the constructor calls that produce the stored cache: the call itself, or - when the choice between the
+				// two implementations sits in a helper of the package - the constructor behind each of the helper's
+				// returns, read with the helper's parameters replaced by the arguments of this call
+				type ctorSite struct {
+					ctor    *ssa.Call
+					in      *ssa.Function
+					at      ssa.Instruction
+					via     *ssa.CallCommon
+					viaFunc *ssa.Function
 				}
-				// only reached when its own duration is set
-				r.Check(guarded(f, st, Atom{"(" + orderEq(`""`, "conf."+w[0]) + ")", false}), "C18.3", "Init: "+field+" ("+name+") created only when "+w[0]+" is set", st.Pos(), fnName(f), "guarded", field+" is created under another cache's duration setting")
+				var sites []ctorSite
+				if hc := helperCallee(f, &call.Call); hc != nil && calleeShort(&call.Call) != "newLRUCache" && calleeShort(&call.Call) != "newMapCache" {
+					undec := false
+					eachInstr(hc, func(in ssa.Instruction) {
+						ret, isRet := in.(*ssa.Return)
+						if !isRet || len(ret.Results) == 0 {
+							return
+						}
+						rv := stripConv(returnedValue(ret, 0, nil))
+						if cst, isC := rv.(*ssa.Const); isC && cst.Value == nil {
+							return // the error path hands back no cache
+						}
+						if ctor, isCall := rv.(*ssa.Call); isCall {
+							sites = append(sites, ctorSite{ctor, hc, ret, &call.Call, hc})
+							return
+						}
+						undec = true
+					})
+					if undec || len(sites) == 0 {
+						r.Unk("C18.3", "Init: "+field+" source", st.Pos(), fnName(f), "helper "+fnName(hc)+" does not return constructor calls only")
+						continue
+					}
+				} else {
+					sites = []ctorSite{{call, f, st, nil, nil}}
+				}
+				for _, cs := range sites {
+					tr := func(s string) string { return substParams(s, cs.viaFunc, cs.via) }
+					name := calleeShort(&cs.ctor.Call)
+					durOK := strings.Contains(tr(pathOf(cs.ctor.Call.Args[0])), "time.ParseDuration(conf."+w[0]+")#0")
+					capAtom := "(" + orderEq("0", "conf."+w[1]) + ")"
+					guardedBy := func(pol bool) bool {
+						return guardedM(cs.in, cs.at, func(cond string, p bool) bool { return tr(cond) == capAtom && p == pol })
+					}
+					switch name {
+					case "newLRUCache":
+						capOK := tr(pathOf(cs.ctor.Call.Args[1])) == "conf."+w[1]
+						g := guardedBy(false)
+						r.Check(durOK && capOK && g, "C18.3", "Init: "+field+" LRU uses "+w[0]+"/"+w[1]+" and is chosen when "+w[1]+" != 0", st.Pos(), fnName(f), tr(pathOf(cs.ctor)),
+							"the bounded cache for "+field+" is created from, or selected by, another cache's setting: with only "+w[1]+" configured the cache is unbounded (or sized by the wrong value)")
+					case "newMapCache":
+						g := guardedBy(true)
+						r.Check(durOK && g, "C18.3", "Init: "+field+" unbounded map only when "+w[1]+" == 0", st.Pos(), fnName(f), tr(pathOf(cs.ctor)),
+							"the unbounded map cache for "+field+" can be selected although "+w[1]+" is configured: the cache is not bounded by its capacity")
+					default:
+						r.Unk("C18.3", "Init: "+field+" constructor", st.Pos(), fnName(f), "unknown constructor "+name)
+					}
+					// only reached when its own duration is set
+					r.Check(guarded(f, st, Atom{"(" + orderEq(`""`, "conf."+w[0]) + ")", false}), "C18.3", "Init: "+field+" ("+name+") created only when "+w[0]+" is set", st.Pos(), fnName(f), "guarded", field+" is created under another cache's duration setting")
+				}
 			}
 		}
 	}
